@@ -169,7 +169,7 @@ theorem mem_eraseDups (l : List Nat) (v : Nat) : v ∈ l.eraseDups ↔ v ∈ l :
 
 /-! ### ConstructPatches: requirement updates, and substituting them back -/
 
-theorem val_unique (l : List (Nat × Nat)) (hn : (l.map (·.1)).Nodup) (k v w : Nat)
+theorem val_unique (l : List (Key × Nat)) (hn : (l.map (·.1)).Nodup) (k : Key) (v w : Nat)
     (h1 : (k, v) ∈ l) (h2 : (k, w) ∈ l) : v = w := by
   induction l with
   | nil => cases h1
@@ -182,7 +182,7 @@ theorem val_unique (l : List (Nat × Nat)) (hn : (l.map (·.1)).Nodup) (k v w : 
     · exfalso; apply hn.1; rw [← h2]; exact List.mem_map_of_mem (f := (·.1)) h1
     · exact ih hn.2 h1 h2
 
-theorem lookupReq_mem (l : List (Nat × Nat)) (hn : (l.map (·.1)).Nodup) (k v : Nat) (h : (k, v) ∈ l) :
+theorem lookupReq_mem (l : List (Key × Nat)) (hn : (l.map (·.1)).Nodup) (k : Key) (v : Nat) (h : (k, v) ∈ l) :
     lookupReq l k = some v := by
   unfold lookupReq
   cases hf : l.reverse.find? (·.1 = k) with
@@ -200,8 +200,8 @@ theorem lookupReq_mem (l : List (Nat × Nat)) (hn : (l.map (·.1)).Nodup) (k v :
     congr 1
     exact val_unique l hn ek ev v (List.mem_reverse.mp hm) h
 
-theorem reqDiff_pointwise (O N : List (Nat × Nat)) (hO : (O.map (·.1)).Nodup) (hN : (N.map (·.1)).Nodup)
-    (k v v' : Nat) (h1 : (k, v) ∈ O) (h2 : (k, v') ∈ N) :
+theorem reqDiff_pointwise (O N : List (Key × Nat)) (hO : (O.map (·.1)).Nodup) (hN : (N.map (·.1)).Nodup)
+    (k : Key) (v v' : Nat) (h1 : (k, v) ∈ O) (h2 : (k, v') ∈ N) :
     (match (reqDiff O N).find? (fun u => u.key = k ∧ u.frm = some v) with
      | some u => (k, u.to)
      | none => (k, v)) = (k, v') := by
@@ -249,13 +249,43 @@ theorem reqDiff_pointwise (O N : List (Nat × Nat)) (hO : (O.map (·.1)).Nodup) 
       have := hf _ hin
       simp at this
 
+/-- every manifest entry whose version changed has its own update in the report -/
+theorem reqDiff_has_update (O N : List (Key × Nat)) (hO : (O.map (·.1)).Nodup) (k : Key) (v v' : Nat)
+    (h1 : (k, v) ∈ O) (h2 : (k, v') ∈ N) (hne : v' ≠ v) : (⟨k, some v, v'⟩ : ReqUpdate) ∈ reqDiff O N := by
+  have hl := lookupReq_mem O hO k v h1
+  unfold reqDiff
+  rw [List.mem_filterMap]
+  exact ⟨(k, v'), h2, by simp [hl, hne]⟩
+
+/-- and an update in the report comes from an entry of the new manifest with that very key -/
+theorem reqDiff_sound (O N : List (Key × Nat)) (u : ReqUpdate) (h : u ∈ reqDiff O N) :
+    (u.key, u.to) ∈ N ∧ u.frm = lookupReq O u.key ∧ u.frm ≠ some u.to := by
+  unfold reqDiff at h
+  rw [List.mem_filterMap] at h
+  obtain ⟨⟨k, v⟩, hm, hf⟩ := h
+  simp only at hf
+  cases hl : lookupReq O k with
+  | none =>
+    simp only [hl, Option.some.injEq] at hf
+    subst hf
+    exact ⟨hm, by simp [hl], by simp⟩
+  | some ov =>
+    simp only [hl] at hf
+    split at hf
+    · cases hf
+    · injection hf with hf; subst hf
+      rename_i hne
+      refine ⟨hm, by simp [hl], ?_⟩
+      simp only [ne_eq, Option.some.injEq]
+      exact fun h => hne h.symm
+
 /-- substituting the reported requirement updates into the old requirements gives the new ones,
 when both manifests list the same keys in the same order (no additions) without duplicates -/
-theorem applyUpdates_reqDiff (O N : List (Nat × Nat)) (hk : O.map (·.1) = N.map (·.1)) (hO : (O.map (·.1)).Nodup) :
+theorem applyUpdates_reqDiff (O N : List (Key × Nat)) (hk : O.map (·.1) = N.map (·.1)) (hO : (O.map (·.1)).Nodup) :
     applyUpdates O (reqDiff O N) = N := by
   have hN : (N.map (·.1)).Nodup := hk ▸ hO
   unfold applyUpdates
-  have key : ∀ (os ns : List (Nat × Nat)), os.map (·.1) = ns.map (·.1) → (∀ e ∈ os, e ∈ O) → (∀ e ∈ ns, e ∈ N) →
+  have key : ∀ (os ns : List (Key × Nat)), os.map (·.1) = ns.map (·.1) → (∀ e ∈ os, e ∈ O) → (∀ e ∈ ns, e ∈ N) →
       os.map (fun x => match (reqDiff O N).find? (fun u => u.key = x.1 ∧ u.frm = some x.2) with
         | some u => (x.1, u.to) | none => (x.1, x.2)) = ns := by
     intro os
